@@ -108,7 +108,10 @@ RcvAdvance(r, st, out) ==
 (* ---------------- the code: Session.handle_tls_record ---------------- *)
 KeysFound == fault # "nokeys"
 SuiteKnown == fault # "nosuite"
-RcvInit(d) == IF ver = "TLS13" THEN Fresh(IF hsInLog THEN "hs" ELSE "app") ELSE Fresh("app")
+\* hsInLog: which sides' handshake traffic secrets the key log holds ("both", "none", "c", "s").  Decryptor.parse_keys falls back PER SIDE:
+\* a side without handshake secret starts with its application key
+HsIn(d) == hsInLog \in {"both", d}
+RcvInit(d) == IF ver = "TLS13" THEN Fresh(IF HsIn(d) THEN "hs" ELSE "app") ELSE Fresh("app")
 
 HandleFinished(r) ==                       \* handle_handshake_finished (exceptions swallowed by the caller)
   IF hasDec /\ ccs[r.d] /\ canDec
@@ -218,7 +221,7 @@ Next == (HsStep /\ UNCHANGED <<alerted, ku>>) \/ (AppStep(FALSE) /\ UNCHANGED <<
 
 Init == /\ ver \in Vers /\ fam \in Fams /\ ValidPair(ver, fam)
         /\ abbrev \in (IF ver = "TLS13" THEN {FALSE} ELSE BOOLEAN)
-        /\ hsInLog \in (IF ver = "TLS13" THEN BOOLEAN ELSE {TRUE})
+        /\ hsInLog \in (IF ver = "TLS13" THEN {"both", "none", "c", "s"} ELSE {"both"})
         /\ pad \in (IF ver = "TLS13" THEN BOOLEAN ELSE {FALSE})
         /\ tickets \in (IF abbrev THEN {FALSE} ELSE BOOLEAN)
         /\ group \in (IF abbrev THEN {"permsg"} ELSE {"permsg", "flight"})
